@@ -95,14 +95,14 @@ class Harness(cm.BaseA):
         return W
 
     def canon(self, W, config):
-        return b"|".join(lw._volumes.tobytes() for _, lw in sorted(W["lw"].items())) + bytes([W["rejected"]])
+        return b"|".join(lw.volumes.astype(float).tobytes() for _, lw in sorted(W["lw"].items())) + bytes([W["rejected"]])
 
     # cells: (labware, id used in calls, alias id or None)
     CELLS = [("A", "A01", None), ("A", "B01", None), ("S", "A01", "B01"), ("S", "B02", "A02")]
 
     def _vol(self, W, lw, wid):
         L = W["lw"][lw]
-        return float(L._volumes[L.indices[wid]])
+        return float(L.volumes[L.indices[wid]])
 
     def events(self, W, config, full):
         mn, mx, _ = LIMITS[config["limits"]]
